@@ -44,7 +44,7 @@ def gen(rng, tier, no, wide=False):
         if k == "iteration":
             fl.append([k, sorted(set(rng.sample(steps + [-1, 999], rng.randint(1, 2))))])
         elif k == "iterIndex":
-            fl.append([k, sorted(rng.sample([0, 1, 2, 3], rng.randint(1, 2)))])
+            fl.append([k, [0] if rng.random() < 0.3 else sorted(rng.sample([0, 1, 2, 3], rng.randint(1, 2)))])
         elif k == "rank":
             fl.append([k, sorted(rng.sample([0, 1, 2], rng.randint(1, 2)))])
         elif k == "timeRange":
@@ -62,7 +62,19 @@ def gen(rng, tier, no, wide=False):
             fl.append([k, rng.random() < 0.6])
         else:
             fl.append([k, rng.choice(G.MEMCPY_NAMES + ["Memset (Device)", "no such type"])])
-    case["params"] = {"filters": fl, "with_rank_col": rng.random() < 0.5, "decoded": rng.choice([None, None, "long", "short"]),
+    # how each filter object is made: the list argument or a bare int, FirstIterationFilter for index [0], the symbol
+    # table handed to the constructor instead of the call
+    how = []
+    for sp in fl:
+        h = "plain"
+        if sp[0] in ("iteration", "iterIndex", "rank") and len(sp[1]) == 1 and rng.random() < 0.5:
+            h = "scalar"
+        if sp[0] == "iterIndex" and sp[1] == [0] and rng.random() < 0.6:
+            h = "first"
+        if ((sp[0] == "name" and sp[1]) or sp[0] == "memcopy") and rng.random() < 0.35:
+            h = "ctor_table"
+        how.append(h)
+    case["params"] = {"filters": fl, "how": how, "with_rank_col": rng.random() < 0.5, "decoded": rng.choice([None, None, "long", "short"]),
                       "composite": rng.random() < 0.7, "twice": rng.random() < 0.3, "used_before": rng.random() < 0.3}
     return case
 
@@ -95,15 +107,18 @@ def _warm_frame():
     return _WARM["df"], _WARM["table"]
 
 
-def _mk_filter(spec, table):
+def _mk_filter(spec, table, how="plain"):
     from hta.common import trace_filter as F
     k = spec[0]
+    arg = (spec[1][0] if how == "scalar" else list(spec[1])) if k in ("iteration", "iterIndex", "rank") else None
     if k == "iteration":
-        return F.IterationFilter(list(spec[1])), None
+        return F.IterationFilter(arg), None
     if k == "iterIndex":
-        return F.IterationIndexFilter(list(spec[1])), None
+        return (F.FirstIterationFilter() if how == "first" else F.IterationIndexFilter(arg)), None
     if k == "rank":
-        return F.RankFilter(list(spec[1])), None
+        return F.RankFilter(arg), None
+    if how == "ctor_table":
+        return (F.NameFilter(spec[2], symbol_table=table) if k == "name" else F.MemCopyEventFilter(spec[1], table)), None
     if k == "timeRange":
         return F.TimeRangeFilter((spec[1], spec[2])), None
     if k == "name":
@@ -145,7 +160,8 @@ def observe(case):
         try:
             # tables differ per filter (None vs table): CompositeFilter passes one table to all members,
             # so a composite is only built when all members agree; otherwise members are applied in sequence
-            built = [_mk_filter(s, table) for s in specs]
+            hows = p.get("how") or ["plain"] * len(specs)
+            built = [_mk_filter(s, table, h) for s, h in zip(specs, hows)]
             if p.get("used_before"):
                 wdf, wtable = _warm_frame()
                 for f, t in built:
@@ -275,6 +291,8 @@ def features(case, obs):
     f: Dict[str, int] = {}
     for s in case["params"]["filters"]:
         f["f_" + s[0]] = 1
+    for h in case["params"].get("how") or []:
+        f["how_" + h] = 1
     f["decoded_" + str(case["params"]["decoded"])] = 1
     f["rank_col"] = int(case["params"]["with_rank_col"])
     c = obs["canon"]
